@@ -44,7 +44,7 @@ def widen_private_fields(frag):
     """R4: private struct fields => pub."""
     import re
     body_from = frag.orig.index("{")
-    for m in re.finditer(r"(?m)^(\s+)([a-z_][a-z0-9_]*)\s*:", frag.orig):
+    for m in re.finditer(r"(?m)^(\s+)([a-z_][a-z0-9_]*)\s*:(?!:)", frag.orig):
         if m.start() > body_from:
             frag.replace_span(m.start(2), m.start(2), "pub ", "R4", "visibility widening")
     return frag
